@@ -308,7 +308,7 @@ def scale_lookups(res, ctx, rng, arities):
     """Lookups far into a long window: a call whose thread produces n further records between its START and a lookup (or
     between the chunks of one lookup) still shows that lookup.  Rungs step over 2^16 (vlib/histories.py)."""
     two = sorted(n for n, a in arities.items() if a and a >= 2 and n not in ('BSC_symlinkat', 'BSC_posix_spawn'))
-    one = sorted(n for n, a in arities.items() if a == 1)
+    one = sorted(n for n, a in arities.items() if a == 1) or sorted(H.ONE_PATH_CALLS)
     for n in [n for i, n in enumerate(ctx.pick(H.SCALE_RUNGS_QUICK, H.SCALE_RUNGS_THOROUGH)) if ctx.mine(i)]:
         t1, t2 = ascii_text(rng.randrange(30, 185), 1), straddling_text(rng.randrange(40, 185), 24, 2)
         l1, l2 = H.lookup(0x7001, t1), H.lookup(0x7002, t2)
